@@ -6,8 +6,7 @@ from ..fdai import EnumV, AggV, K, SymV, RefV, Cell, TOP
 from .. import scpi_models as M
 
 LEVEL = "proof"
-TECHNIQUE = "exhaustive interval abstract interpretation of ErrorCode::esr_mask over all 65536 error numbers (bisection-refined decision table) + table extraction from the derive-generated get_code/get_error/get_message bodies compared with the SCPI-99 error list + constructed-ErrorCode census per module + FDAI tables of the fixed-capacity formatter's fallible methods under the container contract (every failure in the execution class) and value tables of the ChannelSpec conversions (malformed -> command class, unrepresentable -> execution class)"
-
+TECHNIQUE = "exhaustive interval abstract interpretation of ErrorCode::esr_mask over all 65536 error numbers (bisection-refined decision table) + table extraction from the derive-generated get_code/get_error/get_message bodies compared with the SCPI-99 error list + constructed-ErrorCode census per module + FDAI tables of the fixed-capacity formatter's fallible methods under the container contract (every failure in the execution class) and value tables of the ChannelSpec conversions (malformed -> command class, unrepresentable -> execution class); get_error evaluated on every standard code, its neighbours and the range edges"
 LEVEL_TEXT = "Proof over a finite domain: the interval abstract interpreter yields an exact decision table of ErrorCode::esr_mask for all 65536 error numbers (every input interval is analysed, undecided comparisons are refined by bisection) and each number's result is compared with the IEEE 488.2 / SCPI-99 class table; the derive-generated code/message/lookup tables are extracted per variant and compared with the SCPI-99 list, and every ErrorCode the library constructs is classified."
 LEVEL_NOTE = "Trusted: rustc's MIR for the analysed functions, the extractor, the transcription of the SCPI-99 list in oracle/errors.json. Not decided: errors returned by user handlers (only library-constructed codes are classified)."
 
